@@ -124,7 +124,7 @@ def d2_taint(repo, rep):
         rep.ok("R-TAINT-SHIFT", site, "lookup and 1972 test use the unshifted (%s, %s)" % (Y, M))
     # read-back
     rep.fn("Epoch", "Epoch.get_date")
-    outs = outcomes(repo, "Epoch", "Epoch.get_date")
+    outs = outcomes(repo, "Epoch", "Epoch.get_date", arg_terms={"self": ("epoch", T.sym("J")), "kwargs": _kwd(utc=("bool", True))})
     rets = [o for o in outs if o.kind == "ret"]
     if not rets:
         raise AnalysisError("get_date has no return")
@@ -232,14 +232,26 @@ def threshold_of(p):
 def d3_override(repo, rep):
     rep.rule("R-SIB", "the explicit-override branch is the automatic branch with the table value replaced by the supplied one")
     n = 0
+    L = T.sym("NUM_L")
+
+    def nonzero(c):
+        if c[0] == "cmp" and c[2] == L and c[3] == T.ZERO:
+            return {"Eq": False, "NotEq": True}.get(c[1])
+        return None
     for q, auto_call in (("Epoch._compute_jde", "Epoch.Epoch.leap_seconds"), ("Epoch.get_date", "Epoch.Epoch.leap_seconds")):
-        t = ret_term(repo, "Epoch", q)
-        autos, overs = [], []
-        for x in offset_phis(t):
-            if find_calls(x[2], auto_call):
-                autos.append(x)
-            else:
-                overs.append(x)
+        # the two modes are obtained by partial evaluation: automatic (table) and explicit override L != 0
+        if q == "Epoch.get_date":
+            t_auto = ret_term(repo, "Epoch", q, arg_terms={"self": ("epoch", T.sym("J")), "kwargs": _kwd(utc=("bool", True))})
+            t_over = ret_term(repo, "Epoch", q, arg_terms={"self": ("epoch", T.sym("J")), "kwargs": _kwd(leap_seconds=L)})
+        else:
+            fn_ = repo.func("Epoch", q)
+            nm_ = [a.arg for a in fn_.args.args]
+            base_ = {nm_[0]: T.sym("self"), nm_[1]: T.sym("NUM_y"), nm_[2]: T.sym("NUM_m"), nm_[3]: T.sym("NUM_d")}
+            t_auto = ret_term(repo, "Epoch", q, arg_terms=dict(base_, utc2tt=("bool", True), leap_seconds=T.ZERO, local=("bool", False)))
+            t_over = ret_term(repo, "Epoch", q, arg_terms=dict(base_, utc2tt=("bool", False), leap_seconds=L, local=("bool", False)))
+        t_over = assume(t_over, nonzero)
+        autos = [x for x in offset_phis(t_auto) if find_calls(x[2], auto_call)]
+        overs = [x for x in offset_phis(t_over) if not find_calls(x[2], auto_call)]
         site = "Epoch." + q
         if not autos or not overs:
             rep.violation("R-SIB", site, "override-missing", "automatic and override branches both adding 32.184 + 10 s were not found "
@@ -249,7 +261,7 @@ def d3_override(repo, rep):
         call = find_calls(a[2], auto_call)[0]
         # the override symbol: the free symbol in the override branch not in the automatic one
         in_a = set(T.walk(a[2]))
-        syms_o = [x for x in T.walk(o[2]) if x not in in_a and x[0] in ("sym", "idx", "phi")]
+        syms_o = [L] + [x for x in T.walk(o[2]) if x not in in_a and x[0] in ("sym", "idx", "phi")]
         ok = False
         for s in syms_o:
             if T.subst(a[2], {call: s}) == o[2] and T.subst(a[3], {call: s}) == o[3]:
@@ -435,6 +447,9 @@ def d4_deltat(repo, rep, tier):
                     # negated conjunction: only single comparisons are inverted
                     if cj[0] == "and":
                         continue
+                if cj[0] == "cmp" and cj[3] == T.sym("year") and cj[2][0] == "num":
+                    # literal on the left (chained comparison A <= year < B): mirror it
+                    cj = ("cmp", {"Lt": "Gt", "LtE": "GtE", "Gt": "Lt", "GtE": "LtE"}.get(cj[1], cj[1]), cj[3], cj[2])
                 if cj[0] != "cmp" or cj[2] != T.sym("year") or cj[3][0] != "num":
                     continue
                 op, v = cj[1], float(cj[3][1])
